@@ -81,6 +81,8 @@ type checker struct {
 	run  *evid.Run
 	kind string
 	reg  ociregistry.Interface
+
+	lastW ociregistry.BlobWriter // writer of the last successfully committed chunked push
 }
 
 // completeRead reads the blob and checks it against the table entry.
@@ -195,6 +197,9 @@ func (c *checker) push(path, repo string, content []byte, rng *rand.Rand) error 
 			rest = rest[n:]
 		}
 		_, err = w.Commit(d.Digest)
+		if err == nil {
+			c.lastW = w
+		}
 		return err
 	case "Mount":
 		src := repo + "-src"
@@ -215,9 +220,11 @@ func (c *checker) blobScenario(i int, content []byte, path string) {
 	w := map[string]any{"stack": c.kind, "push_path": path, "content_len": len(content), "digest": dg}
 	run.Eval(1)
 	var perr error
+	c.lastW = nil
 	if !run.Case("total/push/"+c.kind, w, func() { perr = c.push(path, repo, content, rng) }) {
 		return
 	}
+	defer c.sessionAfterlife(repo, content, w, rng)
 	run.Distinct(fmt.Sprintf("push/%s/%s/len=%s", c.kind, path, lenClass(len(content))))
 	if perr != nil {
 		// not this property's business (C03/C04 judge acceptance), but it shrinks what can be observed
@@ -251,6 +258,66 @@ func (c *checker) blobScenario(i int, content []byte, path string) {
 			o0 := rng.Int64N(n)
 			c.rangeRead(repo, content, o0, o0+1+rng.Int64N(n-o0))
 		}
+	}
+}
+
+// sessionAfterlife keeps using the upload session of a committed chunked push the way a careless
+// caller does (the deferred Cancel, a resume of the finished session, more data, a second commit).
+// Whatever those calls answer is not judged here; the committed blob has to read back unchanged.
+func (c *checker) sessionAfterlife(repo string, content []byte, w map[string]any, rng *rand.Rand) {
+	bw := c.lastW
+	c.lastW = nil
+	if bw == nil || len(content) == 0 {
+		return
+	}
+	run := c.run
+	dg := model.Digest(content)
+	var steps []string
+	ok := run.Case("total/session-afterlife/"+c.kind, w, func() {
+		id := bw.ID()
+		if rng.IntN(4) != 0 {
+			steps = append(steps, fmt.Sprintf("Cancel:%v", bw.Cancel() == nil))
+		}
+		junk := bytes.Repeat([]byte{'Z'}, 1+rng.IntN(len(content)))
+		if len(junk) > 4096 {
+			junk = junk[:4096]
+		}
+		if rng.IntN(5) == 0 {
+			_, err := bw.Write(junk)
+			steps = append(steps, fmt.Sprintf("Write-on-committed-writer:%v", err == nil))
+		}
+		off := []int64{-1, 0, bw.Size(), int64(len(content))}[rng.IntN(4)]
+		w2, err := c.reg.PushBlobChunkedResume(bg, repo, id, off, 0)
+		steps = append(steps, fmt.Sprintf("Resume(%d):%v", off, err == nil))
+		if err != nil {
+			return
+		}
+		_, err = w2.Write(junk)
+		steps = append(steps, fmt.Sprintf("Write(%d):%v", len(junk), err == nil))
+		switch rng.IntN(3) {
+		case 0:
+			steps = append(steps, fmt.Sprintf("Close:%v", w2.Close() == nil))
+		case 1:
+			_, err := w2.Commit(ociregistry.Digest(model.Digest(junk)))
+			steps = append(steps, fmt.Sprintf("Commit(junk digest):%v", err == nil))
+		default:
+			steps = append(steps, fmt.Sprintf("Cancel:%v", w2.Cancel() == nil))
+		}
+	})
+	if !ok {
+		return
+	}
+	run.Count("session_afterlives", 1)
+	for _, st := range steps {
+		if strings.HasPrefix(st, "Write(") && strings.HasSuffix(st, "true") {
+			run.Count("session_afterlife_writes_accepted", 1)
+		}
+	}
+	w2 := map[string]any{"stack": c.kind, "content_len": len(content), "digest": dg, "after_commit": steps}
+	var r ociregistry.BlobReader
+	var err error
+	if run.Case("total/GetBlob/"+c.kind, w2, func() { r, err = c.reg.GetBlob(bg, repo, ociregistry.Digest(dg)) }) {
+		c.completeRead("GetBlob-after-session-reuse", r, err, content, dg, w2)
 	}
 }
 
